@@ -940,6 +940,20 @@ fn run_item(it: &Item, ctx: &Ctx) -> ItemResult {
                     let (cx, cy) = (cx.unwrap_or_default(), cy.unwrap_or_default());
                     let j = judge(&cx, &cy);
                     cov.contents += 2;
+                    // recipes of the merged values (for the replay file)
+                    let mut recipes = BTreeMap::new();
+                    if let (Some(rv), Some(rw)) = (ctx.recipes.get(&canon_value(v)), ctx.recipes.get(&canon_value(w))) {
+                        recipes.insert(canon_value(&v.merge(w)), format!("merge({rv} , {rw})"));
+                        recipes.insert(canon_value(&w.merge(v)), format!("merge({rw} , {rv})"));
+                    }
+                    for (k, val) in cx.iter().chain(cy.iter()) {
+                        let _ = k;
+                        let c = canon_value(val);
+                        if let Some(r) = ctx.recipes.get(&c) {
+                            recipes.entry(c).or_insert(r.clone());
+                        }
+                    }
+                    let recipes = &recipes;
                     let mut out = Vec::new();
                     if matches!(j, Judge::InternalOnly) {
                         cov.pairs_internal_only += 1;
@@ -951,7 +965,7 @@ fn run_item(it: &Item, ctx: &Ctx) -> ItemResult {
                         for a in px.values() {
                             for b in py.values() {
                                 cov.eq_comparisons += 1;
-                                check_equal(it.depth, &cx, &cy, a, b, "merge(A,B) vs merge(B,A)", &ctx.recipes, &mut out);
+                                check_equal(it.depth, &cx, &cy, a, b, "merge(A,B) vs merge(B,A)", recipes, &mut out);
                             }
                         }
                     } else if let Judge::Unequal(d) = &j {
@@ -959,7 +973,7 @@ fn run_item(it: &Item, ctx: &Ctx) -> ItemResult {
                         for a in px.values() {
                             for b in py.values() {
                                 cov.neq_comparisons += 1;
-                                check_unequal(it.depth, &cx, &cy, a, b, d, "merge(A,B) vs merge(B,A)", &ctx.recipes, &mut out);
+                                check_unequal(it.depth, &cx, &cy, a, b, d, "merge(A,B) vs merge(B,A)", recipes, &mut out);
                             }
                         }
                     }
@@ -1401,7 +1415,23 @@ fn distinct_histories(cfg: &SyncCfg, node: usize, maxlen: usize) -> (Vec<Vec<WOp
 fn value_from_recipe(r: &str) -> Option<ReplicatedValue> {
     let r = r.trim();
     if let Some(inner) = r.strip_prefix("merge(").and_then(|x| x.strip_suffix(')')) {
-        let (x, y) = inner.split_once(" , ")?;
+        // split at the top-level " , " (recipes nest)
+        let b = inner.as_bytes();
+        let mut level = 0i32;
+        let mut cut = None;
+        for i in 0..b.len() {
+            match b[i] {
+                b'(' => level += 1,
+                b')' => level -= 1,
+                b' ' if level == 0 && inner[i..].starts_with(" , ") => {
+                    cut = Some(i);
+                    break;
+                }
+                _ => {}
+            }
+        }
+        let cut = cut?;
+        let (x, y) = (&inner[..cut], &inner[cut + 3..]);
         return Some(value_from_recipe(x)?.merge(&value_from_recipe(y)?));
     }
     let (rep, ops) = r.split_once(':')?;
@@ -1423,7 +1453,8 @@ fn content_from_json(v: &Value) -> Content {
         let recipe = e["recipe"].as_str().unwrap_or_default();
         match value_from_recipe(recipe) {
             Some(val) => {
-                if canon_value(&val) != e["value"].as_str().unwrap_or_default() {
+                let want = e["value"].as_str().unwrap_or_default();
+                if !want.is_empty() && canon_value(&val) != want {
                     eprintln!("replay: recipe {recipe} no longer yields {} (now {})", e["value"], canon_value(&val));
                     std::process::exit(2);
                 }
@@ -1532,12 +1563,16 @@ fn main() {
     // ---- values
     let (vals, nbase) = value_set(2);
     let recipes: BTreeMap<String, String> = vals.iter().map(|v| (v.canon.clone(), v.recipe.clone())).collect();
-    let core_recipes = ["r1:W(a)", "r2:W(b)", "r1:W(a),D", "r1:WX(a)", "r2:H(f=x)", "r1:H(f=x),H(g=y)"];
+    let mut core_recipes = vec!["r1:W(a)", "r2:W(b)", "r1:W(a),D", "r1:WX(a)", "r2:H(f=x)", "r1:H(f=x),H(g=y)"];
+    if thorough {
+        core_recipes.push("merge(r1:W(a) , r2:W(b))");
+        core_recipes.push("r2:H(f=x),HD(f)");
+    }
     let mut core: Vec<ReplicatedValue> = Vec::new();
-    for r in core_recipes {
-        match vals.iter().find(|v| v.recipe == r) {
-            Some(v) => core.push(v.v.clone()),
-            None => rep.machinery_failure(&format!("core value {r} not in the generated value set")),
+    for r in &core_recipes {
+        match value_from_recipe(r) {
+            Some(v) if recipes.contains_key(&canon_value(&v)) => core.push(v),
+            _ => rep.machinery_failure(&format!("core value {r} not in the generated value set")),
         }
     }
     let base: Vec<ReplicatedValue> = vals[..nbase].iter().map(|v| v.v.clone()).collect();
@@ -1579,7 +1614,7 @@ fn main() {
             for pos in 0..n {
                 items.push(Item { depth: *depth, keys: keys.clone(), sweep: Sweep::Unequal { bg: bg.clone(), pos } });
                 if g == 0 {
-                    for vi in 0..base.len() {
+                    for vi in 0..(if thorough { all.len() } else { base.len() }) {
                         items.push(Item { depth: *depth, keys: keys.clone(), sweep: Sweep::MergeOrder { bg: bg.clone(), pos, vi } });
                     }
                 }
@@ -1590,7 +1625,7 @@ fn main() {
     shuffle(&mut items, args.seed);
     // quick: the value list of the unequal sweep is the base set for multi-key sets and the full
     // closure for single-key sets; thorough: the full closure everywhere
-    let ctx_full = Ctx { core: core.clone(), base: base.clone(), list: all.clone(), recipes: recipes.clone() };
+    let ctx_full = Ctx { core: core.clone(), base: if thorough { all.clone() } else { base.clone() }, list: all.clone(), recipes: recipes.clone() };
     let ctx_base = Ctx { core: core.clone(), base: base.clone(), list: base.clone(), recipes: recipes.clone() };
     let part = args.flag("--part").map(|s| s.to_string());
     if part.as_deref() == Some("sync") {
@@ -1615,7 +1650,7 @@ fn main() {
     let mut orders: BTreeMap<String, (usize, usize)> = BTreeMap::new();
     let mut sweep_counts: BTreeMap<&str, u64> = BTreeMap::new();
     let mut idx: Vec<usize> = (0..items.len()).collect();
-    idx.sort_by_key(|&i| format!("{:?}", items[i]));
+    idx.sort_by_key(|&i| (items[i].keys.len(), items[i].depth, format!("{:?}", items[i])));
     for &i in &idx {
         let r = &results[i];
         cov.add(&r.cov);
